@@ -419,7 +419,7 @@ func failShape(s ref.Sel, d ref.V) string {
 // that fails somewhere along the way.
 func c12Long(w *mon.W) {
 	r := w.Rng
-	for it := 0; it < w.Share(w.Pick(60, 1200)); it++ {
+	for it := 0; it < w.Share(w.Pick(200, 1200)); it++ {
 		n := gen.Pick(r, []int{20, 33, 64, 100})
 		var s ref.Sel
 		leaf := ref.List(ref.Int(1), ref.Str("日本語"), ref.Null())
@@ -546,7 +546,7 @@ func runC12(w *mon.W) {
 			}
 		}
 	}
-	total := w.Share(w.Pick(30000, 900000))
+	total := w.Share(w.Pick(100000, 900000))
 	for it := 0; it < total; it++ {
 		d := c12Data(r, 4)
 		n := 1 + r.IntN(6)
@@ -581,7 +581,7 @@ func runC12(w *mon.W) {
 // gives for that value. Model-free.
 func c12Reuse(w *mon.W) {
 	r := w.Rng
-	total := w.Share(w.Pick(3000, 60000))
+	total := w.Share(w.Pick(10000, 60000))
 	for it := 0; it < total; it++ {
 		// a family of collection values of one kind and several lengths, wrapped the same way
 		kind := r.IntN(3)
